@@ -195,10 +195,18 @@ def run(pid, tier, seed, args, t0):
         idxs = set(v["idx"] for v, _ in mine)
         evs = events_for(os.path.join(m["dir"], "trace.ndjson"), idxs)
         cs = cases_for(os.path.join(m["dir"], "cases.ndjson"), idxs)
+        # configurations of all failing variants per (case, verdict): the option part of the signature
+        fail_cfgs = {}
+        for v, f in mine:
+            for e in evs.get(v["idx"], []):
+                if e.get("variant") == v.get("variant") and e.get("ev") == "Format":
+                    fail_cfgs.setdefault((v["idx"], f["w"]), []).append(e.get("cfg", {}))
+                    break
         for v, f in mine:
             case = cs.get(v["idx"], {})
             ce = [e for e in evs.get(v["idx"], []) if e.get("variant", v.get("variant")) == v.get("variant") or e.get("ev") in ("Render", "Lit")]
-            sig = signatures.signature(pid, f["w"], src, case, ce, f.get("i", 0))
+            sig = signatures.signature(pid, f["w"], src, case, ce, f.get("i", 0),
+                                       signatures.options_tag(fail_cfgs.get((v["idx"], f["w"]), [{}])))
             rec = {"property": pid, "what": f["w"], "source": src, "signature": sig, "case": case, "events": ce}
             if (pid, sig) in known_sigs:
                 seen_known.setdefault(sig, rec)
